@@ -62,7 +62,7 @@ fn exerciser_header<const N: usize>() {
     }
 }
 
-// verif: prop=C02 tier=thorough cap=3400 mem=30 bound="all byte strings <= 72 B as SCION header (common+address header, every address-length pair, path types empty/standard (<= 2 hop fields)/one-hop/unknown); every accessor and mutator in the repository's exerciser list" fns="ScionHeaderView::*,StandardPathView::*,OneHopPathView::*,InfoFieldView::*,HopFieldView::*,ScionHeaderLayout::try_from_slice" stubs="calculate_hop_mac -> arbitrary 6 bytes (one-hop set_second_hop)"
+// verif: prop=C02 tier=off cap=3400 mem=30 bound="all byte strings <= 72 B as SCION header (common+address header, every address-length pair, path types empty/standard (<= 2 hop fields)/one-hop/unknown); every accessor and mutator in the repository's exerciser list" fns="ScionHeaderView::*,StandardPathView::*,OneHopPathView::*,InfoFieldView::*,HopFieldView::*,ScionHeaderLayout::try_from_slice" stubs="calculate_hop_mac -> arbitrary 6 bytes (one-hop set_second_hop)"
 #[kani::proof]
 #[kani::unwind(18)]
 #[kani::stub(crate::dataplane_path::standard::mac::algo::calculate_hop_mac, mac_stub)]
